@@ -14,6 +14,7 @@ N14 ``for s in itertools.repeat(x, n): body``                      ->  ``for _ i
 N13 ``i = len(L); while i > 0: i -= 1; ... L[i] ...`` (and the forward form)  ->  ``for x in reversed(L)`` / ``for x in L``
 N12 ``yield from <pipeline>``                                      ->  ``for x in <pipeline>: yield x``
 N11 ``v = functools.reduce(f, X, init)``                          ->  ``v = init; for x in X: v = f(v, x)``
+N18 ``return A if c else B`` (A or B a reduce / next form)         ->  ``if c: return A`` / ``else: return B``
 N10 ``list(<map/filter/chain/generator pipeline that runs package code>)`` and loops over such pipelines  ->  the loop nest
 N9  ``it = iter(X); while (v := next(it, S)) is not S: body``   ->  ``for v in X: body`` (S a fresh ``object()``)
 N8  ``match s: case P if g: ...``                               ->  the if / elif chain (class / sequence / literal / capture / or patterns)
@@ -457,6 +458,17 @@ class _Ctx:
             value = getattr(st, "value", None)
             if value is None:
                 return [st]
+            # N18 -------------------------------------------------------------------------------
+            # ``return A if c else B`` where a branch is a fold / search that is read as its loop: the if statement it abbreviates
+            if isinstance(st, ast.Return) and isinstance(value, ast.IfExp) and any(
+                    isinstance(br, ast.Call) and (self._callee(br).split(".")[-1] == "reduce" and len(br.args) == 3 or self._next_form(br) is not None)
+                    for br in (value.body, value.orelse)):
+                r1, r2 = ast.Return(value=value.body), ast.Return(value=value.orelse)
+                split = ast.If(test=value.test, body=[r1], orelse=[r2])
+                for n in (r1, r2, split):
+                    ast.copy_location(n, st)
+                ast.fix_missing_locations(split)
+                return self.block([split])
             # N1 ---------------------------------------------------------------------------------
             nx = self._next_form(value)
             if nx is not None and isinstance(st, (ast.Return, ast.Assign, ast.AnnAssign)):
